@@ -121,6 +121,9 @@ func tid(t types.Type) string {
 	ti := &TypeInfo{}
 	out.Types[s] = ti
 	typeOf[s] = t
+	if a, ok := t.(*types.Alias); ok && types.TypeString(types.Unalias(a), nil) == s {
+		t = types.Unalias(a) // e.g. `any`, whose unaliased form prints as `any` again
+	}
 	switch u := t.(type) {
 	case *types.Named:
 		ti.Kind = "named"
